@@ -60,6 +60,9 @@ def main(argv):
 
 def run(pid, mod, tier, seed):
     t0 = time.time()
+    import glob
+    for f in glob.glob(os.path.join(ROOT, "violations", "%s-*.json" % pid)):
+        os.remove(f)       # replay files of earlier runs of this property
     known = load_known()
     listed = {f["id"]: f for f in known if pid in f["properties"]}
     systems = mod.build(tier, seed)
